@@ -51,6 +51,7 @@ type c07Built struct {
 }
 
 type c07World struct {
+	rx     []byte
 	c      *core.Ctx
 	key    *rsa.PrivateKey
 	issuer *type3.RateLimitedIssuer
@@ -167,7 +168,14 @@ func sealWithAAD(k *nameKeyInfo, r *core.Rand, aad, pt []byte) ([]byte, []byte, 
 }
 
 func (w *c07World) eval(b []byte) (resp, brk []byte, err error, pan bool, pv, where string) {
-	pan, pv, where = core.Guard(func() { resp, brk, err = w.issuer.Evaluate(clone(b)) })
+	// one receive buffer per issuer, refilled in place for every request (a server reading into the same buffer); the
+	// buffer is scribbled over after the call, so nothing the issuer keeps by reference survives
+	w.rx = append(w.rx[:0], b...)
+	rx := w.rx[:len(b):len(b)]
+	pan, pv, where = core.Guard(func() { resp, brk, err = w.issuer.Evaluate(rx) })
+	for i := range rx {
+		rx[i] ^= 0xff
+	}
 	return
 }
 
